@@ -43,7 +43,19 @@ PD == [ e1 |-> P(100, <<65001, 65002>>, 0, TRUE, 11, 0, <<>>, 1, 1, {}, 0),     
         na |-> P(160, <<65001>>, 0, TRUE, 17, 0, <<>>, 7, 7, {"noadvertise", "c1"}, 0),
         ot |-> P(100, <<65001, 65008>>, 0, TRUE, 18, 0, <<>>, 8, 8, {}, 65001),      \* carries OTC
         bk |-> P(170, <<65009>>, 0, TRUE, 19, 0, <<>>, PeerIP, 9, {}, 0),            \* learned from the target peer itself
-        st |-> S(10) ]                                                               \* static route (redistributed)
+        st |-> S(10),
+        (* add-path identifier sensitivity: d0 and variants that differ from it in exactly one attribute *)
+        d0    |-> P(100, <<65020>>, 0, TRUE, 30, 0, <<>>, 21, 21, {}, 0),
+        dSrc  |-> P(100, <<65020>>, 0, TRUE, 30, 0, <<>>, 22, 21, {}, 0),          \* parallel link to the same router
+        dNh   |-> P(100, <<65020>>, 0, TRUE, 30, 0, <<>>, 21, 23, {}, 0),
+        dId   |-> P(100, <<65020>>, 0, TRUE, 31, 0, <<>>, 21, 21, {}, 0),
+        dLp   |-> P(101, <<65020>>, 0, TRUE, 30, 0, <<>>, 21, 21, {}, 0),
+        dMed  |-> P(100, <<65020>>, 3, TRUE, 30, 0, <<>>, 21, 21, {}, 0),
+        dAsp  |-> P(100, <<65021>>, 0, TRUE, 30, 0, <<>>, 21, 21, {}, 0),
+        dComm |-> P(100, <<65020>>, 0, TRUE, 30, 0, <<>>, 21, 21, {"c1"}, 0),
+        dOid  |-> P(100, <<65020>>, 0, FALSE, 30, 6, <<7>>, 21, 21, {}, 0),
+        dOid2 |-> P(100, <<65020>>, 0, FALSE, 30, 8, <<7>>, 21, 21, {}, 0),
+        dCl   |-> P(100, <<65020>>, 0, FALSE, 30, 6, <<7, 8>>, 21, 21, {}, 0) ]                                                               \* static route (redistributed)
 Rec(n) == PD[n]
 
 SessDef == [
@@ -76,26 +88,29 @@ None == [type |-> "none"]
 Base(p) == IF p.type = "static" THEN [P(0, <<>>, 0, FALSE, 0, 0, <<>>, 0, p.nh, {}, 0) EXCEPT !.redist = TRUE] ELSE p
 IsRedist(p) == p.type = "static"
 
-ExportRules(p0) ==
+(* export rules towards a session t whose peer has address peer *)
+ExportRulesS(t, peer, p0) ==
     LET p == Base(p0) IN
-    IF p0.type = "bgp" /\ p.src = PeerIP THEN None                                  \* never back to the peer it came from
+    IF p0.type = "bgp" /\ p.src = peer THEN None                                    \* never back to the peer it came from
     ELSE IF "noadvertise" \in p.comm THEN None
-    ELSE IF "noexport" \in p.comm /\ ~T.ibgp THEN None
-    ELSE IF T.ibgp THEN
+    ELSE IF "noexport" \in p.comm /\ ~t.ibgp THEN None
+    ELSE IF t.ibgp THEN
         IF IsRedist(p0) THEN p
-        ELSE IF ~p.ebgp /\ ~T.rrc THEN None                                        \* iBGP-learned to a non-client iBGP peer
-        ELSE IF T.rrc
+        ELSE IF ~p.ebgp /\ ~t.rrc THEN None                                        \* iBGP-learned to a non-client iBGP peer
+        ELSE IF t.rrc
              THEN [p EXCEPT !.oid = IF p.oid # 0 THEN p.oid ELSE p.src, !.clv = <<ClusterID>> \o p.clv]
              ELSE p
     ELSE
-        LET q == IF T.rsc THEN p ELSE [p EXCEPT !.asp = <<LocalASN>> \o p.asp, !.nh = LocalIP] IN
-        IF T.roles /\ q.otc # 0 /\ T.remote \in {"provider", "peer", "rs"} THEN None
-        ELSE IF T.roles /\ q.otc = 0 /\ T.remote \in {"customer", "peer", "rsclient"} THEN [q EXCEPT !.otc = LocalASN]
+        LET q == IF t.rsc THEN p ELSE [p EXCEPT !.asp = <<LocalASN>> \o p.asp, !.nh = LocalIP] IN
+        IF t.roles /\ q.otc # 0 /\ t.remote \in {"provider", "peer", "rs"} THEN None
+        ELSE IF t.roles /\ q.otc = 0 /\ t.remote \in {"customer", "peer", "rsclient"} THEN [q EXCEPT !.otc = LocalASN]
         ELSE q
+ExportRules(p0) == ExportRulesS(T, PeerIP, p0)
 
 (* the fields a peer can observe *)
 Wire(p) == [asp |-> p.asp, nh |-> p.nh, lp |-> p.lp, med |-> p.med, oid |-> p.oid, clv |-> p.clv, comm |-> p.comm,
-            otc |-> p.otc, ebgpLearned |-> p.ebgp, redist |-> p.redist]
+            otc |-> p.otc, ebgpLearned |-> p.ebgp, redist |-> p.redist,
+            id |-> p.id, src |-> p.src]     \* identity of the originating path (two paths may look alike on the wire)
 
 Export(po, x, n) ==
     LET r == ExportRules(PD[n]) IN
@@ -106,11 +121,19 @@ Min(a, b) == IF a < b THEN a ELSE b
 Window(s) == {s[i] : i \in 1..Min(T.n, Len(s))}                                     \* best only (n = 1) or the first n paths
 ExportView(r, po) == [x \in Pfxs |-> {Wire(Export(po, x, n)) : n \in {m \in Window(r[x]) : Export(po, x, m).type # "none"}}]
 
+(* a second session on the same Loc-RIB (C13: its Adj-RIB-Out must be what ITS rules say, whatever the first session does): *)
+(* the opposite kind of the session under test, add-path 4, accept-all export policy, peer address 202                   *)
+OtherSess == [ibgp |-> ~T.ibgp, rsc |-> FALSE, rrc |-> ~T.ibgp, n |-> 4, roles |-> FALSE, remote |-> "none"]
+OtherPeerIP == 202
+OtherView(r) == [x \in Pfxs |->
+    {Wire(ExportRulesS(OtherSess, OtherPeerIP, PD[n])) :
+        n \in {m \in {r[x][i] : i \in 1..Min(4, Len(r[x]))} : ExportRulesS(OtherSess, OtherPeerIP, PD[m]).type # "none"}}]
+
 SeqSet(s) == {s[i] : i \in 1..Len(s)}
 Remove(s, x) == SelectSeq(s, LAMBDA y : y # x)
 
 J(f) == {[pfx |-> x, paths |-> f[x]] : x \in Pfxs}
-State == [rib |-> J(rib'), up |-> up', pol |-> pol', out |-> J(out')]
+State == [rib |-> J(rib'), up |-> up', pol |-> pol', out |-> J(out'), other |-> J(OtherView(rib'))]
 Log(r) == hist' = Append(hist, r @@ [st |-> State])
 
 Init == /\ sess \in Sessions
@@ -119,7 +142,7 @@ Init == /\ sess \in Sessions
         /\ pol \in Pols
         /\ out = [x \in Pfxs |-> {}]
         /\ hist = << [a |-> "Config", sess |-> SessDef[sess], sessname |-> sess, pol |-> pol, chain |-> PolDef[pol],
-                      st |-> [rib |-> J(rib), up |-> up, pol |-> pol, out |-> J(out)]] >>
+                      st |-> [rib |-> J(rib), up |-> up, pol |-> pol, out |-> J(out), other |-> J(OtherView(rib))]] >>
 
 AddPath(x, n) ==
     /\ n \notin SeqSet(rib[x]) /\ Len(rib[x]) < MaxPaths
